@@ -1,11 +1,11 @@
-(* Sem.v -- the documented meaning of the binding / handler language (docs/language.md: "C-like" int/uint/bool/QString/pointer
+(* Sem.v -- the documented meaning of the binding / handler language (docs/language.md: "C-like" int/uint/double/bool/QString/pointer
    typing, integer division, short-circuit && and ||, ternary, if/else, switch with fall-through and break, let/const, return), as a
    big-step evaluator of the AST (model/Lang.v) in an object world.  This is the SPECIFICATION the emitted C++ is compared with;
    it is kept short and is structurally recursive (the language has no loops).
    Undefinedness (Undef) is part of the meaning: signed 32-bit overflow, division by zero, INT_MIN / -1, shift counts outside
    0..31, left shift of a negative value or out of range, null dereference, read of a never-assigned variable.
    Stuck = outside the modelled fragment or ill-typed (the type checker is C05's subject). *)
-From QV Require Import model.Base model.Lang.
+From QV Require Import model.Base model.Lang model.Floats.
 Open Scope Z_scope.
 Open Scope list_scope.
 
@@ -16,6 +16,7 @@ Inductive val :=
 | VS (s : list N)       (* QString: UTF-16 code units *)
 | VP (o : option nat)   (* pointer to a VObj (object index) or null *)
 | VL (z : Z)            (* an integer literal expression not yet met by a concrete type *)
+| VD (bits : N)         (* double: the binary64 bit pattern, NaNs canonical (model/Floats.v) *)
 | VNull
 | VVoid.
 
@@ -31,7 +32,7 @@ Definition mk_uint (z : Z) : res val := Def (VU (z mod UINT_MOD)).              
 
 (* ---- the world ---- *)
 Record object := { o_b : bool; o_i : Z; o_u : Z; o_s : list N; o_next : option nat;
-                   o_m1 : Z; o_m2 : Z (* two int properties announced by one notify signal *) }.
+                   o_m1 : Z; o_m2 : Z (* two int properties announced by one notify signal *); o_d : N (* double, as bits *) }.
 Inductive effect :=
 | ESet (o : nat) (p : string) (v : val)        (* a property write through the setter *)
 | ECallM (o : nat) (m : string) (args : list val)
@@ -43,7 +44,8 @@ Definition read_prop (st : state) (o : nat) (p : string) : res val :=
   let? x := get_obj st o in
   if String.eqb p "b" then Def (VB (o_b x)) else if String.eqb p "i" then Def (VI (o_i x)) else if String.eqb p "u" then Def (VU (o_u x))
   else if String.eqb p "s" then Def (VS (o_s x)) else if String.eqb p "next" then Def (VP (o_next x))
-  else if String.eqb p "m1" then Def (VI (o_m1 x)) else if String.eqb p "m2" then Def (VI (o_m2 x)) else Stuck "property".
+  else if String.eqb p "m1" then Def (VI (o_m1 x)) else if String.eqb p "m2" then Def (VI (o_m2 x))
+  else if String.eqb p "d" then Def (VD (canon (o_d x))) else Stuck "property".
 Fixpoint set_nth {A} (l : list A) (n : nat) (x : A) : list A :=
   match l, n with [], _ => [] | _ :: r, O => x :: r | y :: r, S k => y :: set_nth r k x end.
 Definition coerce (target : string) (v : val) : res val :=      (* a literal meets the concrete type of a property / variable *)
@@ -58,14 +60,17 @@ Definition write_prop (st : state) (o : nat) (p : string) (v : val) : res state 
   let? x := get_obj st o in
   let? v := coerce p v in
   let? x' := match v with
-             | VB b => if String.eqb p "b" then Def {| o_b := b; o_i := o_i x; o_u := o_u x; o_s := o_s x; o_next := o_next x; o_m1 := o_m1 x; o_m2 := o_m2 x |} else Stuck "type"
-             | VI z => if String.eqb p "i" then Def {| o_b := o_b x; o_i := z; o_u := o_u x; o_s := o_s x; o_next := o_next x; o_m1 := o_m1 x; o_m2 := o_m2 x |}
-                       else if String.eqb p "m1" then Def {| o_b := o_b x; o_i := o_i x; o_u := o_u x; o_s := o_s x; o_next := o_next x; o_m1 := z; o_m2 := o_m2 x |}
-                       else if String.eqb p "m2" then Def {| o_b := o_b x; o_i := o_i x; o_u := o_u x; o_s := o_s x; o_next := o_next x; o_m1 := o_m1 x; o_m2 := z |}
+             | VB b => if String.eqb p "b" then Def {| o_b := b; o_i := o_i x; o_u := o_u x; o_s := o_s x; o_next := o_next x; o_m1 := o_m1 x; o_m2 := o_m2 x; o_d := o_d x |} else Stuck "type"
+             | VI z => if String.eqb p "i" then Def {| o_b := o_b x; o_i := z; o_u := o_u x; o_s := o_s x; o_next := o_next x; o_m1 := o_m1 x; o_m2 := o_m2 x; o_d := o_d x |}
+                       else if String.eqb p "m1" then Def {| o_b := o_b x; o_i := o_i x; o_u := o_u x; o_s := o_s x; o_next := o_next x; o_m1 := z; o_m2 := o_m2 x; o_d := o_d x |}
+                       else if String.eqb p "m2" then Def {| o_b := o_b x; o_i := o_i x; o_u := o_u x; o_s := o_s x; o_next := o_next x; o_m1 := o_m1 x; o_m2 := z; o_d := o_d x |}
                        else Stuck "type"
-             | VU z => if String.eqb p "u" then Def {| o_b := o_b x; o_i := o_i x; o_u := z; o_s := o_s x; o_next := o_next x; o_m1 := o_m1 x; o_m2 := o_m2 x |} else Stuck "type"
-             | VS s => if String.eqb p "s" then Def {| o_b := o_b x; o_i := o_i x; o_u := o_u x; o_s := s; o_next := o_next x; o_m1 := o_m1 x; o_m2 := o_m2 x |} else Stuck "type"
-             | VP q => if String.eqb p "next" then Def {| o_b := o_b x; o_i := o_i x; o_u := o_u x; o_s := o_s x; o_next := q; o_m1 := o_m1 x; o_m2 := o_m2 x |} else Stuck "type"
+             | VU z => if String.eqb p "u" then Def {| o_b := o_b x; o_i := o_i x; o_u := z; o_s := o_s x; o_next := o_next x; o_m1 := o_m1 x; o_m2 := o_m2 x; o_d := o_d x |} else Stuck "type"
+             | VS s => if String.eqb p "s" then Def {| o_b := o_b x; o_i := o_i x; o_u := o_u x; o_s := s; o_next := o_next x; o_m1 := o_m1 x; o_m2 := o_m2 x; o_d := o_d x |} else Stuck "type"
+             (* the setter of the API model (as Qt's setters do) returns early when the new value COMPARES equal: a zero of the other sign is not stored *)
+             | VD d => if String.eqb p "d" then Def {| o_b := o_b x; o_i := o_i x; o_u := o_u x; o_s := o_s x; o_next := o_next x; o_m1 := o_m1 x; o_m2 := o_m2 x;
+                                                       o_d := if f_eqb (o_d x) d then o_d x else d |} else Stuck "type"
+             | VP q => if String.eqb p "next" then Def {| o_b := o_b x; o_i := o_i x; o_u := o_u x; o_s := o_s x; o_next := q; o_m1 := o_m1 x; o_m2 := o_m2 x; o_d := o_d x |} else Stuck "type"
              | _ => Stuck "type"
              end in
   Def {| objs := set_nth (objs st) o x'; trace := ESet o p v :: trace st |}.
@@ -102,6 +107,11 @@ Definition arith (op : bop) (a b : val) : res val :=
       | _ => Stuck "literal operator"
       end
   | VS x, VS y => match op with BAdd => Def (VS (x ++ y)) | _ => Stuck "string operator" end
+  | VD x, VD y =>                                   (* IEEE-754 binary64: total, nothing is undefined ( % is F7: not compilable ) *)
+      match op with
+      | BAdd => Def (VD (f_add x y)) | BSub => Def (VD (f_sub x y)) | BMul => Def (VD (f_mul x y)) | BDiv => Def (VD (f_div x y))
+      | _ => Stuck "double operator"
+      end
   | _, _ =>
       match both_int a b with
       | Some (false, x, y) =>
@@ -138,6 +148,12 @@ Definition compare (op : bop) (a b : val) : res val :=
   match a, b with
   | VL x, VL y => cmp_of op (x <? y) (x =? y)
   | VS x, VS y => cmp_of op (str_lt x y) (str_eqb x y)
+  | VD x, VD y =>                                   (* an unordered pair (a NaN) is neither less, equal nor greater *)
+      match op with
+      | BEq | BSEq => Def (VB (f_eqb x y)) | BNe | BSNe => Def (VB (negb (f_eqb x y)))
+      | BLt => Def (VB (f_ltb x y)) | BLe => Def (VB (f_leb x y)) | BGt => Def (VB (f_ltb y x)) | BGe => Def (VB (f_leb y x))
+      | _ => Stuck "comparison operator"
+      end
   | VB x, VB y => match op with BEq | BSEq => Def (VB (Bool.eqb x y)) | BNe | BSNe => Def (VB (negb (Bool.eqb x y)))
                                 | _ => cmp_of op (negb x && y) (Bool.eqb x y) end
   | VP x, VP y => match op with BEq | BSEq => Def (VB (match x, y with Some p, Some q => Nat.eqb p q | None, None => true | _, _ => false end))
@@ -183,6 +199,7 @@ Section Eval.
     | EBool b => Def (VB b, st)
     | EStr s => Def (VS s, st)
     | ENull => Def (VNull, st)
+    | EFloat bits => Def (VD (canon bits), st)
     | EThis => Def (VP (Some this), st)
     | EIdent n =>
         match lookup e n with
@@ -205,9 +222,12 @@ Section Eval.
           match args with
           | [a; b] =>
               let? (av, st1) := eval st e a in let? (bv, st2) := eval st1 e b in
-              let? c := compare BLt av bv in
-              match c with VB lt => if String.eqb m "max" then Def ((if lt then bv else av), st2) else if String.eqb m "min" then Def ((if lt then av else bv), st2) else Stuck "Math"
-                         | _ => Stuck "Math" end
+              (* std::max(a, b) = a < b ? b : a;  std::min(a, b) = b < a ? b : a  (they differ from each other's mirror image on unordered doubles) *)
+              if String.eqb m "max" then
+                let? c := compare BLt av bv in match c with VB lt => Def ((if lt then bv else av), st2) | _ => Stuck "Math" end
+              else if String.eqb m "min" then
+                let? c := compare BLt bv av in match c with VB lt => Def ((if lt then bv else av), st2) | _ => Stuck "Math" end
+              else Stuck "Math"
           | _ => Stuck "Math"
           end
         else
@@ -227,7 +247,8 @@ Section Eval.
         | UMinus, VI z => let? r := mk_int (- z) in Def (r, st1)
         | UMinus, VL z => Def (VL (- z), st1)
         | UMinus, VU z => let? r := mk_uint (- z) in Def (r, st1)
-        | UPlus, (VI _ | VU _ | VL _) => Def (v, st1)
+        | UPlus, (VI _ | VU _ | VL _ | VD _) => Def (v, st1)
+        | UMinus, VD d => Def (VD (f_neg d), st1)
         | UBitNot, VI z => Def (VI (Z.lnot z), st1)
         | UBitNot, VU z => Def (VU (UINT_MOD - 1 - z), st1)
         | UBitNot, VL z => Def (VL (Z.lnot z), st1)
@@ -255,6 +276,10 @@ Section Eval.
         | ["int"%string], VU z => Def (VI (if z <? 2147483648 then z else z - UINT_MOD), st1)
         | ["int"%string], VL z => let? r := coerce "i" w in Def (r, st1)
         | ["int"%string], VI _ => Def (w, st1)
+        | ["double"%string], VI z | ["double"%string], VU z | ["double"%string], VL z => Def (VD (f_of_Z z), st1)
+        | ["double"%string], VD _ => Def (w, st1)
+        | ["int"%string], VD d => match f_trunc d with Some z => if in_int z then Def (VI z, st1) else Undef | None => Undef end
+        | ["uint"%string], VD d => match f_trunc d with Some z => if (0 <=? z) && (z <? UINT_MOD) then Def (VU z, st1) else Undef | None => Undef end
         | _, _ => Stuck "cast"
         end
     | _ => Stuck "expression form"
